@@ -12,10 +12,14 @@ ops: conv ctoken cp2sx substring2 substring3 before after contains starts ends t
      length compare cpequal s2cp cp2s upper lower encode iri html
      upperG lowerG (case tables of EPV/Gen/C09Case.lean, regenerated from the live CPython)
      hbefore hafter hcontains hstarts hends hcompare (HTML ASCII case-insensitive collation)
+     tok1|<string or ->  one-argument fn:tokenize (3.1): `T:<cps>;<cps>…` (`T:-` = empty sequence), answer
+          <model>|<spec tokenize(normalize-space(s),' ')>|<holds FF/VT 0/1 (histogram only; F09o is fixed)>|<spec, max-runs reading>|<branch>
 -/
 import EPV.Proto
 import EPV.Model.Strings
 import EPV.Gen.C09Case
+import EPV.Model.StringsTokenize1
+import EPV.Spec.FOTokenize1
 open EPV.Proto
 open EPV.FOStrings (Str Num Err)
 open EPV
@@ -115,8 +119,24 @@ def parseNumArg (s : String) : Option FOStrings.NumArg :=
     pure (.flt n ds p)
   | _ => none
 
+/-- a sequence of strings: `T:<cps>;<cps>` (`T:-` = the empty sequence; an empty token shows as nothing between `;`) -/
+def vToks (l : List Str) : String :=
+  if l.isEmpty then "T:-" else "T:" ++ ";".intercalate (l.map showNats)
+
 def answerBase (line : String) : String :=
   match line.splitOn "|" with
+  | ["tok1", a] =>
+    match parseOStr a with
+    | none => "bad-arg"
+    | some o =>
+      let m := Strings.fnTokenize1 o
+      let branch := match o with
+        | none => "empty-sequence"
+        | some s => if s.isEmpty then "zero-length" else if m.isEmpty then "whitespace-only"
+                    else if m.length == 1 then "one-token" else "tokens"
+      vToks m ++ "|" ++ vToks (FOStrings.fnTokenize1 o) ++ "|" ++
+        (if Strings.hasFfVt o then "1" else "0") ++ "|" ++
+        vToks (match o with | none => [] | some s => FOStrings.maxRuns s) ++ "|" ++ branch
   | ["cp2sx", items] =>       -- items: `i:<int>` `u:<int>` `u:-` (untyped, not an integer) `b` `s` `o`
     let parseItem (t : String) : Option FOStrings.CpItem :=
       match t.splitOn ":" with
